@@ -4,12 +4,13 @@
    (MemoryPersister) and runtime/filepersist.cpp (FilePersister) as far as the session uses them:
      put(seq, what)        : refused for seq = 0 and for a seq already stored (both persisters);
                              `what` arrives as a C string (truncated at the first NUL)
-     put(sender, target)   : File: overwrites the control record; Memory: std::map::insert, i.e. only
-                             the FIRST control put is kept (F30)
-     get(sender&, target&) : File: the control record; Memory: reinterprets the std::string OBJECT
-                             as two unsigneds (F30) -- not reproducible: modelled as "the record if
-                             one was put" and kept out of the tie (the harness prints CTRL - and the
-                             generators never recover from a MemoryPersister that holds a record)
+     put(sender, target)   : both persisters replace the control record (Memory: since /repo 760121b
+                             key 0 is erased before the insert; before, only the FIRST put was kept, F30)
+     get(sender&, target&) : the control record (Memory: since 760121b read from the string's data;
+                             before, the std::string OBJECT was reinterpreted, F30 garbage).  The harness
+                             still prints CTRL only for the file persister (the C16 oracle and its proofs
+                             are about that one); the Memory record is observable through recovery: an
+                             acceptor's second Logon recovers from it and the tie covers that
      get(from, to, cb)     : see p_range
      File, index layout    : the control record is always written at offset 0 of the index file and
                              message records are appended; a message stored BEFORE the first control
@@ -74,10 +75,7 @@ Definition p_put (p : persister) (s : N) (what : bytes) : persister :=
 Definition p_put_ctrl (p : persister) (snd rcv : N) : persister :=
   match p_kind p with
   | PNone => p
-  | PMem => match p_ctrl p with
-            | Some _ => p
-            | None => mkPer PMem (p_store p) (Some (snd, rcv)) (p_slot0 p) (p_lost p)
-            end
+  | PMem => mkPer PMem (p_store p) (Some (snd, rcv)) (p_slot0 p) (p_lost p)
   | PFile => mkPer PFile (p_store p) (Some (snd, rcv)) S0Ctrl
                    (match p_slot0 p with S0Msg s => s :: p_lost p | _ => p_lost p end)
   end.
